@@ -171,11 +171,44 @@ def mdhdFields (a : Args) : Spec.Mp4Info.Mdhd :=
   { version := a.nat "version", flags := a.nat "flags", creationTime := a.nat "ctime", modificationTime := a.nat "mtime",
     timescale := a.nat "timescale", duration := a.nat "duration", language := a.nat "lang", preDefined := a.nat "predef" }
 
-def entryFields (a : Args) : Spec.Mp4Info.AudioEntry :=
-  { dataReferenceIndex := a.nat "dri", channelCount := a.nat "ch", sampleSize := a.nat "bits", preDefined := a.nat "predef",
-    reserved := a.nat "reserved", sampleRate := a.nat "rate", sampleRateFraction := a.nat "frac", children := a.bytes "children" }
+def hexUpper (n : Nat) : String :=
+  String.ofList ((Nat.toDigits 16 n).map Char.toUpper)
 
-def showEntry (e : Mp4.Entry) : String := s!"channels={e.channels} sample_size={e.sampleSize} sample_rate={e.sampleRate}"
+/-- `codec`: the entry's name (latin-1) and what `_parse_esds` appends, as bytes -/
+def mp4Codec (name : Bytes) (param : Option (Nat × Option Nat)) : Bytes :=
+  name ++ (match param with
+    | none => []
+    | some (oti, aot) =>
+      let s := "." ++ hexUpper oti ++ (match aot with | some t => s!".{t}" | none => "")
+      s.toList.map fun c => UInt8.ofNat c.toNat)
+
+def showMp4 (i : Mp4.Info) : String :=
+  s!"length={i.length.render} channels={i.channels} bits_per_sample={i.bitsPerSample} sample_rate={i.sampleRate} bitrate={i.bitrate} s_codec={hexField (mp4Codec i.codecName i.codecParam)}"
+
+def showEntry (e : Mp4.Entry) : String :=
+  s!"channels={e.channels} sample_size={e.sampleSize} sample_rate={e.sampleRate} bitrate={e.bitrate}"
+
+def ibAtoms (a : Args) (k : String) : List Mutagen.Mp4C.Atom := (Mutagen.Mp4C.walk (a.bytes k)).getD []
+
+def mp4Fields (a : Args) : Spec.Mp4Info.Fields :=
+  { before := ibAtoms a "before", after := ibAtoms a "after", tail := a.bytes "tail", moovBefore := ibAtoms a "moovbefore",
+    moovAfter := ibAtoms a "moovafter", trakBefore := ibAtoms a "trakbefore", trakAfter := ibAtoms a "trakafter",
+    mdhd := mdhdFields a, hdlrHead := a.bytes "hdlrhead", hdlrRest := a.bytes "hdlrrest", minfBefore := ibAtoms a "minfbefore",
+    stblAfter := ibAtoms a "stblafter", stsdFlags := a.nat "stsdflags", entryCount := a.nat "entrycount" 1,
+    entry := { dataReferenceIndex := a.nat "dri", channelCount := a.nat "ch", sampleSize := a.nat "bits", preDefined := a.nat "epredef",
+               reserved := a.nat "ereserved", sampleRate := a.nat "rate", sampleRateFraction := a.nat "frac" },
+    codec := match a.str "codec" "plain" with
+      | "alac" => .alac { frameLength := a.nat "aframe", bitDepth := a.nat "adepth", pb := a.nat "apb", mb := a.nat "amb", kb := a.nat "akb",
+                          numChannels := a.nat "ach", maxRun := a.nat "amaxrun", maxFrameBytes := a.nat "amaxframe",
+                          avgBitRate := a.nat "abr", sampleRate := a.nat "arate" }
+      | "dac3" => .dac3 { fscod := a.nat "fscod", bsid := a.nat "bsid", bsmod := a.nat "bsmod", acmod := a.nat "acmod", lfeon := a.nat "lfeon",
+                          bitRateCode := a.nat "brc", reserved := a.nat "dres" }
+      | "esds" => .esds { longForm := a.nat "long" == 1, esId := a.nat "esid", streamPriority := a.nat "prio", upStream := a.nat "upstream",
+                          bufferSizeDB := a.nat "bufsize", maxBitrate := a.nat "maxbr", avgBitrate := a.nat "avgbr",
+                          audioObjectType := a.nat "aot", freqIndex := a.nat "fidx", explicitFreq := a.nat "efreq",
+                          channelConfiguration := a.nat "cc", frameLengthFlag := a.nat "flf", slConfig := a.bytes "sl" }
+      | _ => .plain (a.bytes "ename") ((ibAtoms a "extra").headD (.leaf [] false [])),
+    entryMore := a.bytes "entrymore", moreEntries := a.bytes "moreentries" }
 
 def infoBOp (a : Args) : String :=
   let res {α : Type} (sh : α → String) (r : Except PyErr α) : String :=
@@ -243,11 +276,9 @@ def infoBOp (a : Args) : String :=
   | "expect", "MP4mdhd" =>
     let m := mdhdFields a
     s!"ok length={(Spec.Mp4Info.mdhdExpected m).render} ok={ibBit (decide m.OK)} partial=1"
-  | "parse", "MP4entry" => res showEntry (Mp4.entry (a.bytes "data"))
-  | "build", "MP4entry" => s!"ok v={hexField (Spec.Mp4Info.entryPayload (entryFields a))}"
-  | "expect", "MP4entry" =>
-    let e := entryFields a
-    s!"ok {showEntry (Spec.Mp4Info.entryExpected e)} ok={ibBit (decide e.OK)} partial=1"
+  | "parse", "MP4" => res showMp4 (Mp4.parse (a.bytes "data"))
+  | "build", "MP4" => s!"ok v={hexField (Spec.Mp4Info.build (mp4Fields a))}"
+  | "expect", "MP4" => s!"ok {showMp4 (Spec.Mp4Info.expected (mp4Fields a))} ok=1 partial=1"
   | "round53", _ => s!"ok v={Aiff.round53 (a.nat "v")}"
   | _, _ => "bad-op"
 
